@@ -84,6 +84,13 @@ func (q *Query) DBRPs() ([]DBRP, error) {
 			RetentionPolicy: m.RetentionPolicy,
 		}
 	}
+	// SELECT ... INTO writes to its target, the task must have declared it as well.
+	if t := q.stmt.Target; t != nil && t.Measurement != nil {
+		dbrps = append(dbrps, DBRP{
+			Database:        t.Measurement.Database,
+			RetentionPolicy: t.Measurement.RetentionPolicy,
+		})
+	}
 	return dbrps, nil
 }
 
